@@ -29,6 +29,11 @@ import dateutil.rrule
 from icalendar.cal import Calendar, Component, component_factory
 from icalendar.prop import TypesFactory, vCategory, vDatetime, vDDDTypes, vText
 
+try:
+    from icalendar.prop import vUnknown as _vUnknown
+except ImportError:  # older icalendar: unknown properties are plain vText
+    _vUnknown = None
+
 if not hasattr(component_factory, "__getitem__"):
     # icalendar >= 6.2: component_factory is a module, not an instance
     component_factory = component_factory.ComponentFactory()
@@ -500,10 +505,13 @@ class TextMatcher:
 
     def match(self, prop: Union[vText, vCategory, str]):
         # RFC 4791, section 9.7.5: text-match is a substring match
-        if isinstance(prop, vText):
-            matches = self.collation(str(prop), self.text, "contains")
-        elif isinstance(prop, str):
+        if _vUnknown is not None and isinstance(prop, _vUnknown):
+            # Values of unknown type are compared as a whole
             matches = self.collation(self.text, prop, "equals")
+        elif isinstance(prop, str):
+            # vText, but also e.g. parameter values and calendar addresses;
+            # the same values come back as vText when read from the index
+            matches = self.collation(str(prop), self.text, "contains")
         elif isinstance(prop, vCategory):
             # Categories are compared as a whole, each on its own
             matches = any(
